@@ -121,3 +121,23 @@ def row_orders(n: int, full_upto: int = 2) -> List[List[int]]:
         if o not in res:
             res.append(o)
     return res
+
+
+# ------------------------------------------------------------------ histories (state leaking between traces)
+HISTORY_FAMILY = [
+    # each: list of items (s, e, type, name idx, copy); vocabularies chosen so that the same symbol id means a kernel of a
+    # different type in another member (ids are per-trace, any cache keyed by id or name that outlives a trace shows here)
+    [(0, 2, "P", 0, 0), (1, 4, "P", 1, 0), (3, 5, "P", 2, 0), (5, 6, "P", 3, 0)],
+    [(0, 2, "M", 0, 0), (1, 4, "Y", 0, 0), (3, 5, "M", 1, 0), (5, 6, "P", 0, 0)],
+    [(0, 3, "Y", 1, 0), (2, 4, "P", 1, 0), (4, 6, "M", 2, 0), (6, 6, "Y", 2, 0)],
+    [(0, 1, "M", 3, 0), (0, 5, "M", 0, 0)],
+]
+
+
+def history_sequences():
+    """every ordered pair (A, B) of distinct family members, analysed as A, B, A on fresh loads inside one process"""
+    n = len(HISTORY_FAMILY)
+    for a in range(n):
+        for b in range(n):
+            if a != b:
+                yield [a, b, a]
